@@ -161,7 +161,7 @@ class Prog:
 class Gen:
     """random well-typed programs"""
 
-    def __init__(self, r, size=3, init_calls="none", use_types=True, global_assign=True):
+    def __init__(self, r, size=3, init_calls="none", use_types=True, global_assign=True, block_exprs=True):
         """init_calls: may global initialisers call functions?  'none' | 'pure' (only functions without
         print / assignment to globals, transitively) | 'any'.  global_assign: may function bodies assign
         globals (or their fields)?"""
@@ -171,6 +171,9 @@ class Gen:
         self.global_assign = global_assign
         self.pure_ctx = False  # generating the body of a pure function
         self.use_types = use_types
+        self.block_exprs = block_exprs   # if / case expressions with statement branches (also as global initialisers)
+        self.bx_depth = 0                # nesting of block expressions being generated
+        self.bx_budget = 2 + size // 2   # block expressions left for this program
         self.p = Prog()
         self.level = 10 ** 9  # level of the global function being generated
 
@@ -215,6 +218,9 @@ class Gen:
         cands = [b for b in self.vars_of(env, ty)]
         if cands and (d <= 0 or r.random() < 0.45):
             return ("var", r.choice(cands))
+        if (d > 0 and self.block_exprs and self.bx_depth < 2 and self.bx_budget > 0 and ty in (INT, STR, BOOL)
+                and r.random() < 0.06):
+            return self.blockx(env, ty, d, pure)
         if d > 0 and not pure:
             fs = self.callees(env, ty)
             if fs and r.random() < 0.35:
@@ -260,6 +266,61 @@ class Gen:
         if isinstance(ty, tuple) and ty[0] == "fn":
             return self.lam(env, ty, d)
         raise ValueError(ty)
+
+    def blockx(self, env, ty, d, pure=False):
+        """an if / case used as an EXPRESSION whose branches are statement lists that end with the value:
+        ("stx", ("if", arms, else)) / ("stx", ("case", scrut, arms, else)).  The branches declare locals
+        (values and closures), shadow, nest further block expressions; the value usually mentions them."""
+        r = self.r
+        saved = self.pure_ctx
+        if pure:
+            self.pure_ctx = True        # no print, no assignment to globals, only pure callees
+        self.bx_depth += 1
+        self.bx_budget -= 1
+        d = min(d, 2)
+        try:
+            def branch(scope):
+                e2 = env + [scope]
+                ss = self.stmts(e2, 2, 2 - self.bx_depth, False, None) if r.random() < 0.85 else []
+                if ss and ss[0][0] == "block":
+                    # `(if c do <newline> do .. end <more statements>` inside parentheses does not parse
+                    # (observation for the parser properties): never start a branch with a block statement
+                    fb = self.nb("local", INT, False, "l")
+                    ss.insert(0, ("def", fb, ("int", r.randint(0, 9))))
+                    e2[-1].append(fb)
+                mine = [b for b in self.vars_of([e2[-1]], ty) if b.kind == "local"]
+                if mine and r.random() < 0.7:
+                    v = ("var", r.choice(mine))
+                    if ty == INT and r.random() < 0.6:
+                        v = ("bin", "+", v, self.expr(e2, INT, 1, pure))
+                else:
+                    v = self.expr(e2, ty, 1, pure)
+                if v[0] not in ("var", "int", "str", "bool"):
+                    # the value on a line of its own must not read as a continuation of the previous line
+                    vb = self.nb("local", ty, False, "bv")
+                    e2[-1].append(vb)
+                    ss.append(("def", vb, v))
+                    v = ("var", vb)
+                ss.append(("expr", v))
+                return ss
+            if self.use_types and r.random() < 0.3:
+                scrut = self.expr(env, ENUM_E, 1, pure)
+                arms = []
+                for v, t in r.sample([("A", INT), ("B", STR), ("C", None)], r.randint(1, 3)):
+                    sc = []
+                    vb = None
+                    if t is not None and r.random() < 0.8:
+                        vb = self.nb("casevar", t, False, "cv")
+                        sc.append(vb)
+                    arms.append((v, vb, branch(sc)))
+                return ("stx", ("case", scrut, arms, branch([])))
+            arms = [(self.expr(env, BOOL, 1, pure), branch([]))]
+            if r.random() < 0.3:
+                arms.append((self.expr(env, BOOL, 1, pure), branch([])))
+            return ("stx", ("if", arms, branch([])))
+        finally:
+            self.pure_ctx = saved
+            self.bx_depth -= 1
 
     def rec_lam(self, b):
         """b :: fn n: int -> int do if n <= 0 or n > 5 do ret 0 end  ret b(n - 1) + 1 end"""
@@ -424,12 +485,27 @@ class Gen:
         # calls are restricted to functions whose bodies were generated with no global reads
         for i, b in enumerate(globs):
             visible = globs[:i]
+            # a module global initialised by a block expression: its branches are scopes of their own although no
+            # function is around them
+            blk = self.block_exprs and b.ty in (INT, STR, BOOL) and r.random() < 0.45
             if self.init_calls == "none":
-                items.append(("gdef", b, self.expr([list(visible)], b.ty, 2, pure=True)))
+                ienv, pure = [list(visible)], True
             else:
                 self.pure_ctx = self.init_calls == "pure"
-                items.append(("gdef", b, self.expr([list(funcs) + list(visible)], b.ty, 2)))
-                self.pure_ctx = False
+                ienv, pure = [list(funcs) + list(visible)], False
+            if blk:
+                e = self.blockx(ienv, b.ty, 2, pure)
+                k = r.random()
+                if k < 0.15 and b.ty == INT:
+                    e = ("bin", "+", ("int", r.randint(0, 3)), e)       # not at the root of the initialiser
+                elif k < 0.3:
+                    # nested in another block expression
+                    e = ("stx", ("if", [(self.expr(ienv, BOOL, 1, pure), [("expr", e)])],
+                                 [("expr", self.expr(ienv, b.ty, 0, pure))]))
+            else:
+                e = self.expr(ienv, b.ty, 2, pure)
+            items.append(("gdef", b, e))
+            self.pure_ctx = False
         start = self.nb("global", fn_ty([], None), False, "start")
         start.fixed = "start"
         sbody = self.body([list(genv), []], None, 3 + self.size, 2, False)
@@ -491,7 +567,13 @@ class Render:
         if k == "ifx":
             return "(if %s do %s else do %s end)" % (self.e(x[1]), self.e(x[2]), self.e(x[3]))
         if k == "lambda":
-            return self.lam(x, 0)
+            return self.lam(x, getattr(self, "cur", 0))
+        if k == "stx":
+            ind = getattr(self, "cur", 0)
+            try:
+                return "(" + self.s(x[1], ind + 1).strip() + ")"
+            finally:
+                self.cur = ind
         raise ValueError(k)
 
     def tyname(self, nm):
@@ -521,6 +603,7 @@ class Render:
     def s(self, x, ind):
         p = "    " * ind
         k = x[0]
+        self.cur = ind
         if k == "def":
             b, e = x[1], x[2]
             if e[0] == "lambda":
@@ -645,6 +728,9 @@ class Scope:
             self.e(env, x[1]); self.e(env, x[2]); self.e(env, x[3])
         elif k == "lambda":
             self.block(env + [list(x[1])], x[2], new_scope=False)
+        elif k == "stx":
+            # in the initialiser of a module global there is no scope yet: the branches open the first ones
+            self.s(env if env else [[]], x[1])
         else:
             raise ValueError(k)
 
@@ -868,17 +954,22 @@ def _positions(p, leaky=False):
             ex(env, x[2])
         elif k == "ifx":
             ex(env, x[1]); ex(env, x[2]); ex(env, x[3])
+        elif k == "index":
+            ex(env, x[1]); ex(env, x[2])
+        elif k == "stx":
+            st(env if env else [[]], x[1], True)
 
-    def block(env, ss, new_scope=True):
+    def block(env, ss, new_scope=True, value=False):
         env = env + [[]] if new_scope else env
         for i, s in enumerate(ss):
             if s[0] != "ret" or True:
                 out.append((ss, i, [b for sc in env for b in sc]))
             st(env, s)
-        if not ss or ss[-1][0] not in ("ret", "break", "continue"):
+        # (not after the value of a block expression: the branch would lose its value)
+        if not value and (not ss or ss[-1][0] not in ("ret", "break", "continue")):
             out.append((ss, len(ss), [b for sc in env for b in sc]))
 
-    def st(env, x):
+    def st(env, x, value=False):
         k = x[0]
         if k == "def":
             if x[2][0] == "lambda":
@@ -897,9 +988,9 @@ def _positions(p, leaky=False):
             block(env, x[1])
         elif k == "if":
             for c, body in x[1]:
-                ex(env, c); block(env, body, not leaky)
+                ex(env, c); block(env, body, not leaky, value)
             if x[2] is not None:
-                block(env, x[2], not leaky)
+                block(env, x[2], not leaky, value)
         elif k == "loop":
             env[-1].append(x[1]); block(env, x[3])
         elif k == "case":
@@ -908,14 +999,21 @@ def _positions(p, leaky=False):
                 if leaky:
                     if vb is not None:
                         env[-1].append(vb)
-                    block(env, body, False)
+                    block(env, body, False, value)
                 else:
-                    block(env + [[vb] if vb is not None else []], body, False)
-            block(env, x[3], not leaky)
+                    block(env + [[vb] if vb is not None else []], body, False, value)
+            block(env, x[3], not leaky, value)
 
     for it in p.items:
         if it[0] == "gdef" and it[2][0] == "lambda":
             lam([], it[2])
+        elif it[0] == "gdef":
+            # a module global's initialiser: positions inside its block expressions
+            ex([], it[2])
+    # between the items of the module: nothing local is visible there (plant_violations renders a use at
+    # this position as the initialiser of a further global)
+    for i in range(len(p.items) + 1):
+        out.append((p.items, i, []))
     return out
 
 
@@ -939,6 +1037,14 @@ def plant_violations(p, r, k=4):
         leak_visible = any(v is b for v in lpos[j][2])
         out.append((ss, i, b, leak_visible))
     return out
+
+
+def planted_node(p, ss, b, naming):
+    """what to insert at a position of `_positions` to use binder b there: a print statement, or -- between
+    the items of the module -- a further global initialised with b"""
+    if ss is p.items:
+        return ("raw", "planted_probe :: %s" % naming[b])
+    return ("print", ("var", b))
 
 
 # ------------------------------------------------------------------------------------------------
@@ -1442,3 +1548,62 @@ def reexport_projects(r, i):
             f2["/main.sy"] = EXT_PRINT + head.strip("\n") + "\n" + body
             out.append((shape, f2, None if shape in ("missing", "collision") else single))
     return out
+
+
+# ------------------------------------------------------------------------------------------------
+# locals of block expressions that initialise a MODULE GLOBAL: the branches of an if / case are scopes of
+# their own although no function is around them.  A small hand-written family, always enumerated in full.
+
+GINIT_PRE = ("Ev :: enum\n    A int,\n    B str,\n    C,\nend\n\ninc :: fn n: int -> int do\n    ret n + 1\nend\n\n"
+             "limit :: 5\nother :: 7\n\n")
+GINIT_POST = "\nstart :: fn do\n    print(scaled)\n    print(limit)\n    print(other)\nend\n"
+
+# (name, text of the initialiser of `scaled`; N = the local, D = its definition operator, @OTHER = a place in
+#  another branch of the same expression where N is NOT in scope, @BEFORE = a place before N's definition)
+GINIT_CTX = [
+    ("if-branch", "if limit > 3 do\n@BEFORE    N D limit * 2\n    N + 1\nelse do\n@OTHER    0\nend"),
+    ("else-branch", "if limit > 9 do\n@OTHER    0\nelse do\n@BEFORE    N D limit * 2\n    N + 1\nend"),
+    ("elif-branch", "if limit > 9 do\n@OTHER    0\nelif limit > 3 do\n@BEFORE    N D limit * 2\n    N + 1\nelse do\n    1\nend"),
+    ("case-arm", "case Ev.A (limit) do\n    A q -> do\n@BEFORE        N D q * 2\n        N + 1\n    end\n    else do\n@OTHER        0\n    end\nend"),
+    ("case-else", "case Ev.C do\n    A q -> do\n@OTHER        q\n    end\n    else do\n@BEFORE        N D limit * 2\n        N + 1\n    end\nend"),
+    ("nested", "if limit > 3 do\n    t0 := if limit > 4 do\n@BEFORE        N D limit + 1\n        N * 2\n    else do\n        1\n    end\n@OTHER    t0 + 1\nelse do\n    0\nend"),
+    ("closure-reads-it", "if limit > 3 do\n@BEFORE    N D limit * 2\n    f :: fn k: int -> int do\n        m := k + N\n        ret m\n    end\n    f(1)\nelse do\n@OTHER    0\nend"),
+    ("inside-closure", "if limit > 3 do\n    f :: fn k: int -> int do\n@BEFORE        N D k + limit\n        ret N\n    end\n@OTHER    f(1)\nelse do\n    0\nend"),
+    ("not-at-root", "1 + (if limit > 3 do\n@BEFORE    N D limit * 2\n    N + 1\nelse do\n@OTHER    0\nend)"),
+    ("call-argument", "inc(if limit > 3 do\n@BEFORE    N D limit * 2\n    N + 1\nelse do\n@OTHER    0\nend)"),
+    ("loop-in-branch", "if limit > 3 do\n    acc := 0\n    i := 0\n    loop i < 3 do\n        i += 1\n@BEFORE        N D i * 2\n        acc += N\n    end\n@OTHER    acc\nelse do\n    0\nend"),
+]
+GINIT_NAMES = ["limit", "other", "scaled"]      # shadow the global that is read, another global, the global being defined
+
+
+def _ginit(ctx_i, name, mutable, probe=None):
+    text = GINIT_CTX[ctx_i][1].replace("N", "\0")
+    out = []
+    for line in text.split("\n"):
+        tag = None
+        for t in ("@BEFORE", "@OTHER"):
+            if line.startswith(t):
+                tag, line = t, line[len(t):]
+        if tag is not None and probe == tag:
+            ind = line[:len(line) - len(line.lstrip())]
+            out.append("%sprobe_l :: %s" % (ind, name))
+        out.append(line)
+    body = "\n".join(out).replace("\0 D", "%s %s" % (name, ":=" if mutable else "::")).replace("\0", name)
+    src = GINIT_PRE + "scaled :: " + body + "\n"
+    if probe == "@GLOBAL":
+        src += "probe_g :: %s\n" % name
+    post = GINIT_POST
+    if probe == "@START":
+        post = post.replace("    print(other)\n", "    print(other)\n    print(%s)\n" % name)
+    return src + post
+
+
+def ginit_shadow_program(ctx_i, name, mutable):
+    """the local of the block expression named `name` ("fresh" -> a name nothing else has)"""
+    return _ginit(ctx_i, "twice_l" if name == "fresh" else name, mutable)
+
+
+def ginit_use_program(ctx_i, probe, mutable):
+    """the (freshly named) local used where it is not in scope: "@BEFORE" its definition, in an "@OTHER" branch,
+    in another "@GLOBAL", in "@START": has to be rejected"""
+    return _ginit(ctx_i, "twice_l", mutable, probe)
